@@ -268,6 +268,7 @@ class Interp:
         self.loop_info = []             # (fn, head, kept candidates)
         self.assume_no_wrap = assume_no_wrap
         self.exempt_usize_adds = 0
+        self.stable_mut_types = ('regular_expressions::ReManager',)
         self._unsat_cache = {}
         self._const_cache = {}
         self._imp_cache = {}
@@ -883,6 +884,9 @@ class Interp:
             if v.term in st.variants:
                 return I(st.variants[v.term])
             T.TYPES.setdefault(('#objty', v.term), v.ty)
+            nv = self.n_variants(v.ty or '')
+            if nv is not None:
+                T.TYPES.setdefault(('#nvariants', v.term), nv)
             return T.typed(('discr', v.term), 'isize')
         raise Unanalysable('discriminant of %r' % (v,))
 
@@ -1472,6 +1476,14 @@ class Interp:
         val = self.sym_value(st, t, rty)
         if isinstance(val, Sym):
             T.TYPES[('#objty', t)] = rty
+        # objects behind &mut arguments of local uninterpreted callees get a new version (except the hash-consing
+        # manager, whose methods are pure functions of their other arguments as far as term values are concerned)
+        if not havoc_mut:
+            for ai, a in enumerate(args):
+                if isinstance(a, Ref) and a.mut:
+                    tgt = self.load(st, a.cell, a.path)
+                    if isinstance(tgt, Sym) and split_generics(tgt.ty or '')[0] not in self.stable_mut_types:
+                        self.store(st, a.cell, a.path, Sym(('post', name, ai, self.to_term(st, tgt)), tgt.ty))
         # &mut arguments of unknown callees are havocked
         if havoc_mut:
             for a in args:
